@@ -217,10 +217,10 @@ Inductive pstate :=
 | QAfterStmt                  (* statement pushed; '/' or a name may follow *)
 | QAfterSlash.                (* segment closed by '/'; a name may follow *)
 
-(** [acc]: the paths pushed so far, most recent first (stack.push: 256 slots, an index panic beyond) *)
+(** [acc]: the paths pushed so far, most recent first (stack.push: 256 slots; beyond, the overflow flag makes Parse return an error - fix "an XPath with more steps than the parser's path stack holds") *)
 Fixpoint parse_segs (st : pstate) (acc : list seg) (ts : list token) {struct ts} : pres :=
   let push := fun (sg : seg) (k : list seg -> pres) =>
-    if Nat.leb stack_size (length acc) then PPanic else k (sg :: acc) in
+    if Nat.leb stack_size (length acc) then PErr else k (sg :: acc) in
   match ts with
   | [] =>
       match st with
